@@ -278,6 +278,26 @@ def _r4(model, res, c):
                                   m.where(h), 'handler can catch a shared XLError singleton but cannot reset its traceback '
                                   '(no "as" name): frames accumulate on the process-global object', func=k[1])
                     continue
+                # whatever else the handler puts on the caught object stays on the process-global singleton: notes, attributes, arguments
+                for nd in [x for st_ in h.body for x in ast.walk(st_)]:
+                    kept = None
+                    if isinstance(nd, ast.Call) and isinstance(nd.func, ast.Attribute) and isinstance(nd.func.value, ast.Name) and \
+                            nd.func.value.id == h.name and nd.func.attr in ('add_note', '__setattr__', '__setstate__'):
+                        kept = '%s(...)' % src(nd.func)
+                    if isinstance(nd, (ast.Assign, ast.AugAssign)):
+                        for t in (nd.targets if isinstance(nd, ast.Assign) else [nd.target]):
+                            if isinstance(t, ast.Attribute) and isinstance(t.value, ast.Name) and t.value.id == h.name and \
+                                    not (t.attr in ('__traceback__', '__context__', '__cause__') and isinstance(nd, ast.Assign) and
+                                         isinstance(nd.value, ast.Constant) and nd.value.value is None):
+                                kept = '%s = ...' % src(t)
+                    if isinstance(nd, ast.Call) and sa.call_name(nd) == 'setattr' and nd.args and isinstance(nd.args[0], ast.Name) and nd.args[0].id == h.name:
+                        kept = src(nd)[:40]
+                    if kept:
+                        res.ob('R4', site, 'handler writes on the caught object: %s' % kept, False)
+                        res.violation('R4', '%s:%s:handler-%s:writes-on-singleton' % (k[0], k[1], src(h.type) if h.type is not None else 'bare'),
+                                      m.where(nd), 'handler catches the shared XLError singletons (raised at %d sites, e.g. %s) and stores on the '
+                                      'caught object (%s): on a singleton that is state of the process - it accumulates with every failing '
+                                      'evaluation and is never released' % (len(sites), fmt(sites[0][0]), kept), func=k[1])
                 for p in function_paths(h.body):
                     if p.kind() == 'raise':
                         continue        # re-raised: an outer handler is responsible
